@@ -283,7 +283,7 @@ def openWith (cfg : Cfg) (file : Bytes) : M View :=
   let cnt := il / entrySize
   let readLen := if cfg.d6 then cnt * entrySize else il
   match (if il > 0 then
-          (if cnt * entrySize ≥ allocCap then .error (.err .alloc) else
+          (if cnt * entrySize > allocCap then .error (.err .alloc) else
            match readAt file (p + 8) readLen with
            | .error e => .error e
            | .ok raw => match copyInto (cnt * entrySize) raw with
@@ -358,13 +358,14 @@ def stream (v : View) (i : Nat) : M Bytes :=
   | .error e => .error e
   | .ok (len, p) => slice v.file p len
 
-/-- what `ExtractFile(i, path)` does: `some bytes` written to `path`, or `none` for an LZH member (decoder: C04) -/
+/-- what `ExtractFile(i, path)` does: `some bytes` written to `path`, or `none` for an LZH member whose stored extent is
+    accepted (what the decoder makes of it: C04) -/
 def extract (v : View) (i : Nat) : M (Option Bytes) :=
   match v.entry i with
   | .error e => .error e
   | .ok e =>
     if e.comp = uncompressed then (v.stream i).map some
-    else if e.comp = lzh then .ok none
+    else if e.comp = lzh then (v.stream i).map (fun _ => none)
     else .error (.err .format)
 
 end View
